@@ -104,6 +104,9 @@ def cmd_seeded(ids):
             meta = json.load(f)
         if ids and sid not in ids and meta["property"] not in ids:
             continue
+        if meta.get("neutralised"):
+            print(f"NEUTRALISED seeded/{sid}: {meta['neutralised'][:160]}", flush=True)
+            continue
         d = scratch_copy()
         try:
             r = subprocess.run(["patch", "-p1", "-d", d, "-i", os.path.join(sdir, "patch.diff")], capture_output=True, text=True)
